@@ -25,8 +25,8 @@ RULE = ("generated histories of 2-12 operations over 2-3 accounts with automatic
         "(the server's identity-change notification, answered by the library with a key-bundle fetch); every operation "
         "is settled before the next. After each message the model decides whether it must be delivered (the sender accepts the "
         "recipient's current identity and the recipient accepts the sender's: unknown, equal to the pin, or auto-trust) and the pins "
-        "are read from each owner's SQLite store through a separate connection. Non-trivial = a reinstall followed by traffic in both "
-        "directions between the reinstalled account and another one. Distinct = distinct canonical JSON.")
+        "are read from each owner's SQLite store through a separate connection. Store faults (manager level, own store per case): the owner has contact B pinned and a session with it; B's second installation presents a key bundle or a first message while the n-th statement on the owner's key store (n = 1..8; reads only, or any statement) fails like a locked database; automatic trust on/off. The call may fail in any way; with automatic trust off (and for a first message always) the new identity must not be accepted, pinned or given a session, and must be refused afterwards. Non-trivial = a reinstall followed by traffic in both "
+        "directions between the reinstalled account and another one, or a store-fault case whose fault fired. Distinct = distinct canonical JSON.")
 ASSUMPTIONS = [
     "delivery order is FIFO here, reordering and duplication are C03's domain; one group containing all accounts",
     "external defect E3 corrected in the harness as in C03",
